@@ -316,3 +316,5 @@ func (t *traceWriter) Close() error {
 	}
 	return t.f.Close()
 }
+
+func isNotFound(err error) bool { return status.Code(err) == codes.NotFound }
